@@ -8,6 +8,12 @@
 (* scaled supplies in I80F48, the within-one-token post-condition, the     *)
 (* balance operations of Impl.tla, the cap of eight integration            *)
 (* positions); the venue side is the stand-in's exact integer arithmetic.  *)
+(* The Drift integration instructions are modelled the same way (scaled    *)
+(* balances: increment floored, decrement floored plus one, the exact and  *)
+(* the one-above-balance withdrawal cases, withdraw-all keeping one token  *)
+(* unit back when rounding would overdraw, dust left in the venue; venue   *)
+(* interest = the cumulative deposit interest moves; a refresh stamps the  *)
+(* market).                                                                *)
 (* Accounts in this model carry no debt, so no health decision is needed.  *)
 (* Every transition is emitted for replay with its predicted result and    *)
 (* observables and checked against C02 C03 C16.                            *)
@@ -17,7 +23,10 @@ EXTENDS Ledger
 CONSTANTS KBanks,        \* venue-backed banks explored
           KAmounts,      \* liquidity / collateral amounts
           KBorrowed,     \* values of the reserve's borrowed amount (venue interest)
-          KMaxDepth
+          KMaxDepth,
+          DBanks,        \* Drift-backed banks explored
+          DAmounts,      \* token amounts
+          DCums          \* values of the market's cumulative deposit interest (venue interest)
 
 FMulC(a, b) == IF a = None \/ b = None THEN None ELSE FChk(BShr(BMul(a, b), 48))
 FDivC(a, b) == IF a = None \/ b = None THEN None ELSE IF BIsZero(b) THEN None ELSE FChk(BTruncDiv(BShl(a, 48), b))
@@ -96,6 +105,119 @@ KWithdraw(an, bn, amt, all) ==
                                                    !.obligations[on] = [@ EXCEPT !.amount = BSub(@, c)]]
                             IN KDo(a, "ok", post, KObs(post, bn, an, {ut, r.vault}))
 
+
+\* ---- Drift ---------------------------------------------------------------------------------------
+MktOf(bn) == st.banks[bn].integ[1]
+UsrOf(bn) == st.banks[bn].integ[2]
+U64MaxD == BSub(BPow2(64), BOne)
+U128MaxD == BSub(BPow2(128), BOne)
+\* MinimalSpotMarket::get_scaled_balance(amount, round_up)
+DScaled(m, a, up) ==
+  IF m.dec > 19 THEN None
+  ELSE LET x == BMul(a, BPow10(19 - m.dec)) IN
+       IF BGt(x, U128MaxD) \/ BIsZero(m.cum) THEN None
+       ELSE LET q == BFloorDiv(x, m.cum) IN
+            IF BGt(q, U64MaxD) THEN None
+            ELSE IF up /\ ~BIsZero(q) THEN (IF BGe(q, U64MaxD) THEN None ELSE BAdd(q, BOne)) ELSE q
+\* MinimalSpotMarket::get_withdraw_token_amount(scaled)
+DTokens(m, sb) ==
+  IF m.dec > 19 THEN None
+  ELSE LET x == BMul(sb, m.cum) IN IF BGt(x, U128MaxD) THEN None ELSE LET q == BFloorDiv(x, BPow10(19 - m.dec)) IN IF BGt(q, U64MaxD) THEN None ELSE q
+\* the venue's own arithmetic (exact integers)
+DVenueInc(m, a) == BFloorDiv(BMul(a, BPow10(19 - m.dec)), m.cum)
+DVenueBurn(m, a) == LET q == DVenueInc(m, a) IN IF BIsZero(q) THEN BZero ELSE BAdd(q, BOne)
+
+DObs(post, bn, an, toks) ==
+  Obs(post, {bn}, {an}, toks) @@
+  [markets |-> [x \in {post.banks[bn].integ[1]} |-> [ts |-> post.markets[x].ts, cum |-> post.markets[x].cum]],
+   obligations |-> [x \in {post.banks[bn].integ[2]} |-> [amount |-> post.obligations[x].amount]]]
+
+DDeposit(an, bn, amt) ==
+  LET a == [op |-> "drift_deposit", acct |-> an, bank |-> bn, amount |-> amt]
+      b0 == st.banks[bn] ac == st.accts[an] mn == MktOf(bn) un == UsrOf(bn) m == st.markets[mn]
+      te == TagsErr(b0, ac.bal) se == BankStateErr(b0, "PausedOrReduce")
+      l == BOfInt(amt)
+      exp == DScaled(m, l, FALSE)
+  IN IF te # "ok" THEN Fail(a, te)
+     ELSE IF se # "ok" THEN Fail(a, se)
+     ELSE IF Disabled(an) \/ InRecv(an) THEN Fail(a, "AccountDisabled")
+     ELSE IF exp = None THEN Fail(a, "err")
+     ELSE LET ut == UserTok(an, bn) IN
+          IF BLt(TokOf(st, ut), l) THEN Fail(a, "err")
+          ELSE LET c == DVenueInc(m, l) IN
+               IF c # exp THEN Fail(a, "DriftScaledBalanceMismatch")
+               ELSE LET foc == FindOrCreate(ac.bal, bn, b0.key, b0.cfg.asset_tag, Now) IN
+                    IF IsErr(foc) THEN Fail(a, foc.err)
+                    ELSE LET x == ImplIncrease(b0, foc[1], foc[2], FOfBig(c), "DepositOnly", Now) IN
+                         IF IsErr(x) THEN Fail(a, x.err)
+                         ELSE LET b2 == ImplUpdateCache(x.b, Now)
+                                  post == [st EXCEPT !.banks[bn] = b2, !.accts[an].bal = SortBal(x.bal),
+                                                     !.tok = Xfer(@, MintOf(bn), ut, m.vault, l),
+                                                     !.markets[mn] = [@ EXCEPT !.ts = Now],
+                                                     !.obligations[un] = [@ EXCEPT !.amount = BAdd(@, c)]]
+                              IN KDo(a, "ok", post, DObs(post, bn, an, {ut, m.vault}))
+
+\* the venue leg of a withdrawal and the bookkeeping after it
+DFinish(a, an, bn, x, t, e, all) ==
+  LET mn == MktOf(bn) un == UsrOf(bn) m == st.markets[mn] ut == UserTok(an, bn)
+      b2 == ImplUpdateCache(x.b, Now)
+      skip == all /\ BIsZero(t)                              \* dust worth less than one token unit stays in the venue
+      burn == DVenueBurn(m, t)
+  IN IF skip THEN
+       LET post == [st EXCEPT !.banks[bn] = b2, !.accts[an].bal = SortBal(x.bal), !.markets[mn] = [@ EXCEPT !.ts = Now]]
+       IN KDo(a, "ok", post, DObs(post, bn, an, {ut, m.vault}))
+     ELSE IF BLt(st.obligations[un].amount, burn) \/ BLt(TokOf(st, m.vault), t) THEN Fail(a, "err")
+     ELSE IF burn # e THEN Fail(a, "DriftScaledBalanceMismatch")
+     ELSE LET post == [st EXCEPT !.banks[bn] = b2, !.accts[an].bal = SortBal(x.bal),
+                                 !.tok = Xfer(@, MintOf(bn), m.vault, ut, t),
+                                 !.markets[mn] = [@ EXCEPT !.ts = Now],
+                                 !.obligations[un] = [@ EXCEPT !.amount = BSub(@, burn)]]
+          IN KDo(a, "ok", post, DObs(post, bn, an, {ut, m.vault}))
+
+DWithdraw(an, bn, amt, all) ==
+  LET a == [op |-> "drift_withdraw", acct |-> an, bank |-> bn, amount |-> amt, all |-> all]
+      b0 == st.banks[bn] ac == st.accts[an] mn == MktOf(bn) un == UsrOf(bn) m == st.markets[mn]
+      se == BankStateErr(b0, "Paused")
+      i == FindSlot(ac.bal, bn)
+  IN IF se # "ok" THEN Fail(a, se)
+     ELSE IF Disabled(an) THEN Fail(a, "AccountDisabled")
+     ELSE IF i = 0 THEN Fail(a, "BankAccountNotFound")
+     ELSE
+       IF all THEN
+         LET x == ImplWithdrawAll(b0, ac.bal, i, Now) IN
+         IF IsErr(x) THEN Fail(a, x.err)
+         ELSE LET sb == x.pay
+                  t0 == DTokens(m, sb)
+                  e0 == IF t0 = None THEN None ELSE DScaled(m, t0, TRUE)
+              IN IF t0 = None \/ e0 = None THEN Fail(a, "err")
+                 ELSE LET back == e0 = BAdd(sb, BOne) /\ BIsPos(t0)
+                          t == IF back THEN BSub(t0, BOne) ELSE t0
+                          e == IF back THEN DScaled(m, t, TRUE) ELSE e0
+                      IN IF e = None THEN Fail(a, "err")
+                         ELSE IF BLt(sb, e) THEN Fail(a, "MathError")
+                         ELSE DFinish(a, an, bn, x, t, e, TRUE)
+       ELSE
+         LET d0 == DScaled(m, BOfInt(amt), TRUE)
+             shares == BShr(ac.bal[i].a, 48)
+         IN IF d0 = None THEN Fail(a, "err")
+            ELSE IF BGt(d0, BAdd(shares, BOne)) THEN Fail(a, "OperationWithdrawOnly")
+            ELSE LET over == d0 = BAdd(shares, BOne)
+                     t == IF over THEN DTokens(m, shares) ELSE BOfInt(amt)
+                     d == IF over THEN (IF t = None THEN None ELSE DScaled(m, t, TRUE)) ELSE d0
+                 IN IF t = None \/ d = None THEN Fail(a, "err")
+                    ELSE LET x == ImplDecrease(b0, ac.bal, i, FOfBig(d), "WithdrawOnly", Now) IN
+                         IF IsErr(x) THEN Fail(a, x.err)
+                         ELSE DFinish(a, an, bn, x, t, d, FALSE)
+
+DRefresh(bn) ==
+  LET mn == MktOf(bn) a == [op |-> "drift_refresh", market |-> mn]
+      post == [st EXCEPT !.markets[mn].ts = Now]
+  IN Do(a, "ok", post, [markets |-> [x \in {mn} |-> [ts |-> post.markets[x].ts]]])
+DInterest(bn, cum) ==
+  LET mn == MktOf(bn) a == [op |-> "set_drift_market", market |-> mn, cum |-> cum]
+      post == [st EXCEPT !.markets[mn].cum = cum]
+  IN Do(a, "ok", post, [markets |-> [x \in {mn} |-> [cum |-> post.markets[x].cum]]])
+
 \* environment steps
 KTick(d) ==
   LET a == [op |-> "tick", dt |-> d]
@@ -124,7 +246,12 @@ VNext ==
      \/ \E an \in Accts, bn \in KBanks : KWithdraw(an, bn, 0, TRUE)
      \/ \E bn \in KBanks : KRefresh(bn) \/ KDonate(bn)
      \/ \E bn \in KBanks, bor \in KBorrowed : KInterest(bn, bor)
+     \/ \E an \in Accts, bn \in DBanks, amt \in DAmounts : DDeposit(an, bn, amt) \/ DWithdraw(an, bn, amt, FALSE)
+     \/ \E an \in Accts, bn \in DBanks : DWithdraw(an, bn, 0, TRUE)
+     \/ \E bn \in DBanks : DRefresh(bn)
+     \/ \E bn \in DBanks, cum \in DCums : DInterest(bn, cum)
 VSpec == Init /\ [][VNext]_vars
 VView == <<View, [b \in KBanks |-> <<TokOf(st, st.banks[b].vault_liq), st.reserves[ResOf(b)].avail, st.reserves[ResOf(b)].supply, st.reserves[ResOf(b)].slot, st.reserves[ResOf(b)].borrowed_sf,
-                                     st.obligations[OblOf(b)].amount>>], st.clock.slot>>
+                                     st.obligations[OblOf(b)].amount>>], st.clock.slot,
+          [b \in DBanks |-> <<TokOf(st, st.markets[MktOf(b)].vault), st.markets[MktOf(b)].cum, st.markets[MktOf(b)].ts, st.obligations[UsrOf(b)].amount>>]>>
 =============================================================================
